@@ -7,7 +7,7 @@ Steps (all recorded in /verif/seeded/<seed id>/meta.json):
  1. copy patch.diff / demo.py into /verif/seeded/<seed id>/
  2. in a fresh scratch worktree of /repo (under /tmp, removed afterwards): demo passes without the patch; with the patch the
     package imports, `pytest test` is unchanged and the demo fails
- 3. apply the patch to /repo itself, run every check (quick), undo the patch (git checkout -- .)
+ 3. run every check (quick) against that worktree with the patch applied (./check Cxx --repo <worktree>)
 """
 import json
 import os
@@ -62,26 +62,19 @@ def main():
         rc1, out1 = sh('%s %s' % (PY, demo), cwd=wt, env=env)
         meta['ran'].append({'cmd': 'demo.py with the patch', 'exit': rc1, 'tail': out1[-400:]})
         meta['confirmed'] = bool(applied and rc0 == 0 and rci == 0 and rct == 0 and '358 passed' in tail and rc1 != 0)
-    finally:
-        sh('git -C /repo worktree remove --force %s' % wt)
-    # run the checks against /repo with the patch applied
-    caught = {}
-    rc, out = sh('git -C /repo status --porcelain')
-    if out.strip():
-        print('refusing: /repo has uncommitted changes')
-        sys.exit(2)
-    rc, out = sh('git -C /repo apply %s' % patch)
-    try:
-        if rc == 0:
+        # run every check against the scratch worktree with the patch applied (equivalent to `git -C /repo apply`, but /repo stays untouched
+        # and several seeds can be evaluated at the same time)
+        caught = {}
+        if applied:
             props = ['C%02d' % i for i in range(1, 18)]
             for p in props:
-                rc_, o = sh('./check %s --no-write' % p, cwd=VERIF)
+                rc_, o = sh('./check %s --no-write --repo %s' % (p, wt), cwd=VERIF)
                 lines = [l for l in o.splitlines() if l.startswith('VIOLATION') or l.startswith('ANALYSIS-ERROR')]
-                detail = [l.strip()[:220] for l in o.splitlines() if l.startswith('  ') and 'note:' not in l][:3]
+                detail = [l.strip()[:260] for l in o.splitlines() if l.startswith('  ') and 'note:' not in l][:3]
                 if rc_ != 0:
                     caught[p] = {'exit': rc_, 'lines': lines[:3], 'detail': detail}
     finally:
-        sh('git -C /repo checkout -- .')
+        sh('git -C /repo worktree remove --force %s' % wt)
     meta['checks_reporting'] = caught
     meta['caught_by_own_property_check'] = prop in caught and caught[prop]['exit'] == 1
     meta['caught_by_any_check'] = any(v['exit'] == 1 for v in caught.values())
